@@ -265,6 +265,8 @@ def stepPf (pc : PfCfg) (wc : WireCfg) (line : String) : Unit × String :=
         | some b => hexOrDash b
         | none => "-"
       let fw := if wired then wireFlag wc (wops.getD []) ((wcond.getD none)) else ""
+      -- a treasure created from a seed that is not a msgpack map
+      let fsd := if r.status == 1 && !isMapBody (seedOf pc seed) then "\t#F:C13-nonmap-seed-created" else ""
       let b01 := fun (b : Bool) => if b then "1" else "0"
       let f1 := if (r.status == 0 || r.status == 1) && !w then "\t#F:C13-unvalidated-op-value" else ""
       -- the code's status for this error class is not the documented one
@@ -289,7 +291,7 @@ def stepPf (pc : PfCfg) (wc : WireCfg) (line : String) : Unit × String :=
               | _, _ => "")
            | .error _ => "")
         else ""
-      ((), s!"st={r.status} {showStored t.content} wf={b01 w} new={echo} exp={t.exp} mat={b01 t.modAt} mby={hexOrDash t.modBy} cat={b01 t.crAt} cby={hexOrDash t.crBy}{f1}{f2}{f3}{fw}")
+      ((), s!"st={r.status} {showStored t.content} wf={b01 w} new={echo} exp={t.exp} mat={b01 t.modAt} mby={hexOrDash t.modBy} cat={b01 t.crAt} cby={hexOrDash t.crBy}{f1}{f2}{f3}{fw}{fsd}")
     | _, _, _, _, _ => ((), "bad-op")
   | _ => ((), "bad-op")
 
@@ -361,7 +363,7 @@ def run (args : List String) : IO UInt32 := do
   let conv : WireConv := if arg kv "wireConv" == "cast" then .cast else .castChecked
   let wc : WireCfg := ⟨orDoc "opOrder" (opsOf "opOrder") protoOpsDoc, orDoc "condOrder" (condsOf "condOrder") protoCondsDoc,
     orDoc "protoOps" (opsOf "protoOps") protoOpsDoc, orDoc "protoConds" (condsOf "protoConds") protoCondsDoc, conv⟩
-  lineLoop (step cfg ⟨cfg, mg, smap, seed⟩ wc) ()
+  lineLoop (step cfg ⟨cfg, mg, smap, seed, arg kv "seedMapCheck" == "yes"⟩ wc) ()
   return 0
 
 end Driver.C13
